@@ -172,7 +172,7 @@ CHECKS["C10"] = dict(
     technique="stateful model-based testing (rapid state machine) of the Router lifecycle API over scripted subscribers, plus a forced schedule parking RunHandlers right after Started() closes; race detector",
     level_text="rapid drives random lifecycle programs (AddHandler before/after Run, Run, RunHandlers repeated and concurrent, Stop, context cancel, Close, probes) against a real Router and checks a model after every step: subscriptions per handler, Running() vs subscriptions, probe handling, Stop/Stopped usability, Run's return, second Run. The Started()->Stop() window is forced by parking the starter at a hook point.",
     level_note="Trusted: the lifecycle model in c10_test.go, scripted subscribers. Shutting down while a handler added after Run was never started is outside the property (documented need to call RunHandlers).",
-    steps=[dict(name="machine", run="^TestLifecycleMachine$", quick=300, thorough=240000, shards_thorough=12),
+    steps=[dict(name="machine", run="^TestLifecycleMachine$", quick=300, thorough=72000, shards_thorough=12),
            dict(name="forced-stop", run="^TestStopRightAfterStarted$", quick=100, thorough=60000, shards_thorough=4)],
 )
 
